@@ -1,4 +1,4 @@
-/- Driver stream `c25`: `j <raw> <idx:val>...` one jump instruction on preset registers;
+/- Driver stream `c25` (`f <stackLen> <hp> <stack hex> <heap hex> <idx:val>...` = one `execute` step on a full memory image): `j <raw> <idx:val>...` one jump instruction on preset registers;
 `p <stackLen> <hp> <addr>:<hex program> <idx:val>...` one `execute` step (fetch + instruction) of a program in memory. -/
 import FuelVerif.Model.VmLine
 import FuelVerif.Model.Jump
@@ -8,6 +8,11 @@ open FuelVerif FuelVerif.Alu FuelVerif.VmLine
 def memOf (stackLen hp base : Nat) (prog : Array UInt8) : Mem :=
   { stackLen := stackLen, hp := hp,
     bytes := fun a => if base ≤ a ∧ a < base + prog.size then prog.getD (a - base) 0 else 0 }
+
+/-- stack `[0, stack.size)` and heap `[hp, hp + heap.size)` images -/
+def memOf2 (stack heap : Array UInt8) (hp : Nat) : Mem :=
+  { stackLen := stack.size, hp := hp,
+    bytes := fun a => if a < stack.size then stack.getD a 0 else if hp ≤ a ∧ a < hp + heap.size then heap.getD (a - hp) 0 else 0 }
 
 def handle : List String → String
   | "j" :: raw :: rest =>
@@ -29,6 +34,15 @@ def handle : List String → String
         | none => "unmodelled-opcode"
       | _, _ => "bad-op"
     | _, _, _ => "bad-op"
+  | "f" :: sl :: hp :: sh :: hh :: rest =>
+    -- one `execute` step (fetch_instruction + instruction) on a full stack + heap image
+    match sl.toNat?, hp.toNat?, ofHex sh, ofHex hh with
+    | some _, some hp, some sb, some hb =>
+      let arr := parseRegArr rest
+      match executeStep iroot (memOf2 sb.toArray hb.toArray hp) (regsOfArray arr) with
+      | some o => fmtOut arr o
+      | none => "unmodelled-opcode"
+    | _, _, _, _ => "bad-op"
   | _ => "bad-op"
 
 def run : IO Unit := lineLoopPure handle
